@@ -366,6 +366,9 @@ for (sid, rule) in [("C01", "D3"), ("C02", "T-couple"), ("C03", "D3"), ("C04", "
                     ("C12", "T-replace"), ("C13", "T-settled-shards"), ("C14", "G-release-own"), ("C15", "T-filter-use"), ("C16", "T-base"),
                     ("C17", "T-unbind-all"), ("C18", "E6-all"), ("C19", "G-fault"), ("C20", "T-shares-sub")]:
     P.append((f"S-{sid}-r1", sid, rule, f"/verif/seeded/{sid}-r1/patch.diff"))
+# round a5: told about all five earlier seeds of the property (DESIGN 8.5g)
+for (sid, rule) in [("C01", "T-get-immutable"), ("C02", "T-couple"), ("C03", "T-get-immutable"), ("C04", "T-loopvar"), ("C05", "T-unschedule"), ("C06", "T-remaining-term"), ("C07", "T-booked"), ("C08", "T-settle-rebase"), ("C09", "T-msg-immutable"), ("C10", "G-pay"), ("C11", "T-extend-meta"), ("C12", "T-replace"), ("C13", "T-shard-owner"), ("C14", "E6-pair"), ("C15", "T-permute"), ("C16", "T-status-forward"), ("C17", "T-splice-skip"), ("C18", "E6-all"), ("C19", "T-flag-reset"), ("C20", "G-promote")]:
+    P.append((f"S-{sid}-a5", sid, rule, f"/verif/seeded/{sid}-a5/patch.diff"))
 import glob as _glob
 for d in sorted(_glob.glob("/verif/refactors/R[0-9][0-9]")):
     rid = os.path.basename(d)
